@@ -231,7 +231,20 @@ func checkCacheAccounting(w *core.World, r *core.Report, oracles map[*ssa.Functi
 		if changesFrames {
 			nacct++
 			r.Touch(core.QName(fn))
-			r.Check(len(useStores) > 0, r4, core.QName(fn)+": accounting present", fn.Pos(), "adjusts CacheUseSize",
+			adjusts := len(useStores) > 0
+			if !adjusts {
+				// the adjustment may have been moved into a helper of the package
+				for _, g := range cachePkgCallees(fn) {
+					for _, in := range allInstrs(g) {
+						if st, ok := in.(*ssa.Store); ok {
+							if tn, f, ok := core.FieldOfAddr(st.Addr); ok && tn == "cache.Cache" && f == "CacheUseSize" {
+								adjusts = true
+							}
+						}
+					}
+				}
+			}
+			r.Check(adjusts, r4, core.QName(fn)+": accounting present", fn.Pos(), "adjusts CacheUseSize",
 				"frame contents change but CacheUseSize is not adjusted: the reported size no longer equals the stored bytes")
 		}
 		for _, st := range useStores {
@@ -252,17 +265,22 @@ func checkCacheAccounting(w *core.World, r *core.Report, oracles map[*ssa.Functi
 		// the range over the removed frame: keys must be deleted from Sizes
 		okDel := false
 		var rng *ssa.Range
-		for _, b := range pop.Blocks {
-			for _, in := range b.Instrs {
+		rngFn := pop
+		for _, g := range append([]*ssa.Function{pop}, cachePkgCallees(pop)...) {
+			if rng != nil {
+				break
+			}
+			for _, in := range allInstrs(g) {
 				if rg, ok := in.(*ssa.Range); ok && isFrameMap(rg.X) {
 					rng = rg
+					rngFn = g
 				}
 			}
 		}
 		if rng == nil {
 			r.Bad(r6, "cache.(*Cache).Pop: releases sizes", pop.Pos(), "Pop does not range over the removed frame")
 		} else {
-			for _, c := range core.CallsTo(pop, "builtin.delete") {
+			for _, c := range core.CallsTo(rngFn, "builtin.delete") {
 				args := c.Common().Args
 				if len(args) == 2 && isCacheField(args[0], "Sizes") {
 					// key is the range key
@@ -888,4 +906,28 @@ func notDefinedEdges(fn *ssa.Function, depth int) (cut []core.Edge, n int) {
 		}
 	}
 	return
+}
+
+// cachePkgCallees: the functions of package cache a function reaches through static calls (depth 3):
+// where a step of an accounting method was moved into a helper.
+func cachePkgCallees(fn *ssa.Function) []*ssa.Function {
+	seen := map[*ssa.Function]bool{fn: true}
+	var out []*ssa.Function
+	var walk func(f *ssa.Function, d int)
+	walk = func(f *ssa.Function, d int) {
+		if d > 3 {
+			return
+		}
+		for _, c := range core.Calls(f) {
+			g := core.StaticCallee(c)
+			if g == nil || seen[g] || core.PkgOf(g) != "cache" || len(g.Blocks) == 0 {
+				continue
+			}
+			seen[g] = true
+			out = append(out, g)
+			walk(g, d+1)
+		}
+	}
+	walk(fn, 0)
+	return out
 }
